@@ -538,6 +538,22 @@ type Lemma struct {
 	Line int
 }
 
+// BoundedCheck: an exhaustive execution of real code over a stated finite domain (a bounded stand-in, never
+// counted as proved).
+type BoundedCheck struct {
+	Name    string
+	Tags    []string
+	Vars    []BoundedVar
+	GoExpr  string
+	Pkg     string
+	Imports []string
+}
+
+type BoundedVar struct {
+	Name, Type string
+	Lo, Hi     int64
+}
+
 type GhostVar struct {
 	Name string
 	Type string
@@ -557,6 +573,7 @@ type ContractSet struct {
 	SpecFuncs map[string]*SpecFunc // key pkgdir + ":" + name ; also global by name
 	Lemmas    []*Lemma
 	Ghosts    []*GhostVar
+	Bounded   []*BoundedCheck
 	Fields    []*FieldDecl
 	Files     []string
 }
@@ -565,7 +582,7 @@ var clauseKeywords = map[string]bool{
 	"func": true, "requires": true, "ensures": true, "preserves": true, "modifies": true, "loop": true,
 	"invariant": true, "decreases": true, "assert": true, "nopanic": true, "safe": true, "pure": true,
 	"inline": true, "trusted": true, "spec": true, "lemma": true, "ghost": true, "external": true,
-	"guarded": true, "atomic": true, "immutable": true, "confined": true, "purefunc": true,
+	"guarded": true, "atomic": true, "immutable": true, "confined": true, "purefunc": true, "bounded": true,
 }
 
 var tagRe = regexp.MustCompile(`^\[((?:C[0-9]+)(?:\s*,\s*C[0-9]+)*)\]\s*`)
@@ -892,6 +909,29 @@ func (cs *ContractSet) ParseFile(path, pkgdir string) error {
 				return fmt.Errorf("%s:%d: %v", path, it.line, err)
 			}
 			cs.Lemmas = append(cs.Lemmas, &Lemma{Name: label, Tags: tags, Expr: x, Src: r, Pkg: pkgdir, File: path, Line: it.line})
+			cur = nil
+		case "bounded":
+			// bounded [tags] name: x T in lo..hi, y T in lo..hi :: <Go boolean expression over x, y>
+			tags, label, r := parseTagsLabel(rest)
+			parts := strings.SplitN(r, "::", 2)
+			if len(parts) != 2 || label == "" {
+				return fmt.Errorf("%s:%d: malformed bounded check", path, it.line)
+			}
+			bc := &BoundedCheck{Name: label, Tags: tags, GoExpr: strings.TrimSpace(parts[1]), Pkg: pkgdir}
+			for _, vs := range strings.Split(parts[0], ",") {
+				f := strings.Fields(vs)
+				if len(f) != 4 || f[2] != "in" {
+					return fmt.Errorf("%s:%d: bounded variable must be 'name Type in lo..hi'", path, it.line)
+				}
+				lh := strings.Split(f[3], "..")
+				if len(lh) != 2 {
+					return fmt.Errorf("%s:%d: bad range %s", path, it.line, f[3])
+				}
+				lo, _ := strconv.ParseInt(lh[0], 0, 64)
+				hi, _ := strconv.ParseInt(lh[1], 0, 64)
+				bc.Vars = append(bc.Vars, BoundedVar{f[0], f[1], lo, hi})
+			}
+			cs.Bounded = append(cs.Bounded, bc)
 			cur = nil
 		case "ghost":
 			f := strings.Fields(rest)
